@@ -223,6 +223,7 @@ package driver
 //@   marks forall mm gomap[string]string, k string :: !fresh(mm) ==> has(mm, k) == old(has(mm, k)) && mm[k] == old(mm[k])
 //@   ensures [result-iff-no-error] (err == nil) == (result != nil)
 //@   ensures [no-null-hook] [C20] err == nil ==> (forall j int :: 0 <= j && j < len(result.Hooks) ==> result.Hooks[j] != nil)
+//@   ensures [info-present] [C20] err == nil ==> result.Info != nil
 //@   loop 1 invariant [kept-hooks-exist] forall j int :: 0 <= j && j < len(hooks) ==> hooks[j] != nil
 //@   ensures [whole-payload-decoded] err == nil ==> GjsonSource == b64d(data) || GjsonSource == gunzip(b64d(data))
 
